@@ -4,6 +4,9 @@
 //!                  (counting reader), allocation sizes, over-long fields
 //!   loadfuzz c34   .npy / .npz / .safetensors: round trips from any layout,
 //!                  and malformed files
+//!   loadfuzz c05   Model::load / load_file / load_mmap on hostile ONNX and .rten
+//!                  bytes: panics, aborts, sanitizer reports, termination, and
+//!                  well-formedness of every constant of every loaded model
 //!
 //! Reusable pieces for C05/C21: `seeds` (valid ONNX models), `shadow`
 //! (schema-aware walker -> length sites), `pbmut` (structure-aware mutators),
@@ -12,6 +15,11 @@
 use vcommon::*;
 
 mod allocmon;
+mod c05;
+mod c05exec;
+mod c05onnx;
+mod c05rten;
+mod c05run;
 mod c34;
 mod c34mal;
 mod c38;
@@ -43,6 +51,8 @@ fn real_main() {
     match args.cmd.as_str() {
         "c38" => c38::run(&args),
         "c34" => c34::run(&args),
+        "c05" => c05::run(&args),
+        "c05bench" => c05::bench(),
         "noop" => {}
         "bench" => c38::bench(),
         other => {
